@@ -566,6 +566,11 @@ func validateResultPath(repoDir, relPath string) (string, error) {
 	if info.IsDir() {
 		return "", fmt.Errorf("result path must be a file, not directory: %s", relPath)
 	}
+	if !info.Mode().IsRegular() {
+		// A FIFO would block the open forever; a device or socket has no
+		// content to hash. Only regular files can be evidence.
+		return "", fmt.Errorf("result path must be a regular file: %s", relPath)
+	}
 
 	return relPath, nil
 }
